@@ -216,6 +216,10 @@ type Explorer struct {
 	ClaimDir string
 	// Wrap, if set, runs the body (e.g. inside a synctest bubble).
 	Wrap func(fn func())
+	// OnCut, if set, runs on the body's goroutine (inside Wrap) after an
+	// execution was cut short by a prune, an abort or a failure: the place
+	// to let goroutines the code under test left behind finish.
+	OnCut func()
 
 	lastStack string
 	visited map[string]int
@@ -236,6 +240,9 @@ func (e *Explorer) exec(prefix []int, noPrune ...bool) (out outcome) {
 	body := func() {
 		defer func() {
 			if p := recover(); p != nil {
+				if e.OnCut != nil {
+					e.OnCut()
+				}
 				switch v := p.(type) {
 				case pruneSignal:
 				case Failure:
